@@ -29,7 +29,7 @@ CONV = drv("conv", ["props/conv.cpp", "engine/convsim.cpp"], ldflags="-lrapidche
            deps=["engine/convsim.hpp", "engine/convsim_model.inc", "engine/convsim_mock.inc", "engine/convsim_run.inc", "engine/judge.hpp",
                  "engine/cache.hpp", "engine/script.hpp", "engine/wire.hpp", "engine/convsim_battery.inc", "engine/nontrivial.hpp"])
 
-CONV_GEN = "rapidcheck generates conversations for the simulator (engine/): a configuration (valid refresh/expire/retry, one of 4 interval modes, session id, serial base incl. values around 2^31 and 2^32-1, initial cache data, records of a second cache) and 0..14 steps, one per query the client completes. A step scripts: failing open() calls and time consumed in open(); how the query write behaves (whole / 1-3 byte partial writes / error / would-block / interrupted / partial-then-error); 0..2 data-version advances of the cache (toggles over a universe of 24 nested IPv4, 16 nested IPv6 records and 12 router keys, optional 120/230 bulk records), cache restarts; the response kind (correct / Cache Reset / Error Report with any code, version byte, text, encapsulated PDU, also mid-payload / no answer / one of 15 mutations of a correct response incl. a second mutation / version-0 answer / hostile-but-well-formed fields / raw bytes); recv chunking (whole, 1-byte, irregular, 7-byte); and what happens when the client waits on an empty connection (timeout, EINTR, hang-up, transport error, Serial Notify, stop+restart of the socket). After the last step the cache answers honestly. The real state machine (rtr_start -> rtr_fsm_start) runs on the mock transport with a simulated clock; an independent strict decoder + protocol model ('judge') decides what a correct client must conclude. "
+CONV_GEN = "rapidcheck generates conversations for the simulator (engine/): a configuration (valid refresh/expire/retry, one of 4 interval modes, session id, serial base incl. values around 2^31 and 2^32-1, initial cache data, records of a second cache) and 0..14 steps, one per query the client completes. A step scripts: failing open() calls and time consumed in open(); how the query write behaves (whole / 1-3 byte partial writes / error / would-block / interrupted / partial-then-error); 0..2 data-version advances of the cache (toggles over a universe of 24 nested IPv4, 16 nested IPv6 records and 12 router keys, optional bulk families of 110..230 IPv4 /32, IPv6 /128 or router-key records for answers with more than 100 PDUs of a kind; payload PDUs optionally with a non-zero reserved octet), cache restarts; the response kind (correct / Cache Reset / Error Report with any code, version byte, text, encapsulated PDU, also mid-payload / no answer / one of 15 mutations of a correct response incl. a second mutation / version-0 answer / hostile-but-well-formed fields / raw bytes); recv chunking (whole, 1-byte, irregular, 7-byte); a transport fault inside the answer (error, hang-up, EINTR — the last one optionally with the rest of the answer still readable); an rtr_stop()+rtr_start() in the middle of the exchange (at the n-th transport call / table-lock release); and what happens when the client waits on an empty connection (timeout, EINTR also one second late, hang-up, transport error, Serial Notify, a stray PDU of six kinds while ESTABLISHED, stop+restart of the socket). After the last step the cache answers honestly. The real state machine (rtr_start -> rtr_fsm_start) runs on the mock transport with a simulated clock; an independent strict decoder + protocol model ('judge') decides what a correct client must conclude. "
 CONV_A = ['the mock transport obeys the transport contract (never 0 bytes, never more than asked, errors as tcp_transport returns them)', 'clock = lrtr_get_monotonic_time and sleep() replaced at link time (--wrap); one FSM thread does all the work, so a run is a deterministic function of its script', 'the judge (engine/judge.hpp) is a correct reading of RFC 8210 framing and of the property statements; where the statement leaves room the weaker reading is used (DESIGN.md §10)']
 
 ENGINES = [
@@ -49,7 +49,7 @@ CHECKS = {
                 "free) over a colliding universe of nested prefixes of 3 base addresses, both families, lengths 0..32/0..128, any "
                 "max-length, AS in {0,1,2,3,65000,2^32-1}, 3 sources, with validation queries interleaved (stored prefix "
                 "lengthened/shortened/sibling, host bits dirty or not, random). Oracle: RFC 6811 by linear scan over a std::set model, "
-                "for pfx_table_validate, pfx_table_validate_r (+ reason multiset) and rtr_mgr_validate. evaluations = histories; "
+                "for pfx_table_validate, pfx_table_validate_r (+ reason multiset; the reason array of one query is handed to the next in half of the cases, NOT FOUND must clear it) and rtr_mgr_validate. evaluations = histories; "
                 "non-trivial = a query with >=1 covering record issued after >=1 effective removal; distinct by hash(table contents, query).",
         "assumptions": ["stored records have host bits zero and length <= address width (constructed, as every caller does)",
                         "the reference model (model/pfx_model.hpp, 40 lines, linear scan) is correct"],
@@ -83,9 +83,9 @@ CHECKS = {
         "level": "exploration",
         "rule": "part (a): same table-operation generator as C02 with an update callback installed; a mirror set is updated only by the callback; "
                 "'added' for a record the mirror holds or 'removed' for one it lacks fails at once; after every operation mirror == model == "
-                "enumeration; after pfx_table_free the mirror must be empty. non-trivial = history with a remove-by-source over >=2 trie nodes, "
+                "enumeration; after pfx_table_free the mirror must be empty; for the reload sequence (op W: copy_except_socket into a shadow table, load a new set, pfx_table_swap, pfx_table_notify_diff) the callbacks must be exactly the net difference - one 'added' per record of new minus old, one 'removed' per record of old minus new, nothing else. non-trivial = history with a remove-by-source over >=2 trie nodes, "
                 "a free of a table holding >=2 records, or a node pull-up; distinct by hash of the history. "
-                "part (b) (callbacks during rollback / reload / expiry / stop) is checked by the conversation simulator stage.",
+                "part (b) (callbacks during rollback / reload incl. the net-difference rule / expiry / stop) is checked by the conversation simulator stage.",
         "assumptions": ["callbacks are delivered synchronously by the operation that causes them"],
         "floor": {"quick": 300, "thorough": 3000},
         "technique": "stateful property testing (rapidcheck): history invariant 'replay of the callback log == table contents'",
@@ -101,7 +101,7 @@ CHECKS = {
                 "get_all / search_by_ski / bulk add (1..90 keys) / bulk delete / copy_except_socket / the reload sequence "
                 "(copy aside, load new set, swap, notify_diff) over AS numbers that share tommy_inthash_u32 low bits, 4 SKIs and 3 SPKIs "
                 "differing in single bytes, 3 sources. After every operation return codes, get_all (hash side) and search_by_ski (list side) "
-                "and the callback mirror must equal a std::set model (full sweep over every AS x SKI after bulk/src/copy/swap operations and at the end). "
+                "and the callback mirror must equal a std::set model (full sweep over every AS x SKI after bulk/src/copy/swap operations and at the end); the callbacks of swap + notify_diff must be exactly the net difference of the reloading source. "
                 "non-trivial = history that crosses >=1 hash-table grow step and >=1 shrink step and contains a remove-by-source or a swap; "
                 "distinct by hash of the history.",
         "assumptions": ["std::set model of (AS, SKI, SPKI, source)", "grow/shrink steps are observed through the hash table's bucket_bit field (shim)"],
@@ -155,7 +155,7 @@ CHECKS = {
     "C03": {
         "level": "exploration",
         "engine": "convsim + rapidcheck",
-        "rule": "rapidcheck generates conversations for the simulator (engine/): a configuration (valid refresh/expire/retry, one of 4 interval modes, session id, serial base incl. values around 2^31 and 2^32-1, initial cache data, records of a second cache) and 0..14 steps, one per query the client completes. A step scripts: failing open() calls and time consumed in open(); how the query write behaves (whole / 1-3 byte partial writes / error / would-block / interrupted / partial-then-error); 0..2 data-version advances of the cache (toggles over a universe of 24 nested IPv4, 16 nested IPv6 records and 12 router keys, optional 120/230 bulk records), cache restarts; the response kind (correct / Cache Reset / Error Report with any code, version byte, text, encapsulated PDU, also mid-payload / no answer / one of 15 mutations of a correct response incl. a second mutation / version-0 answer / hostile-but-well-formed fields / raw bytes); recv chunking (whole, 1-byte, irregular, 7-byte); and what happens when the client waits on an empty connection (timeout, EINTR, hang-up, transport error, Serial Notify, stop+restart of the socket). After the last step the cache answers honestly. The real state machine (rtr_start -> rtr_fsm_start) runs on the mock transport with a simulated clock; an independent strict decoder + protocol model ('judge') decides what a correct client must conclude. Oracle C03: at every observation point (each open(), each completed query, stop, end) the cache's records in both tables must equal one of the model's alternatives — after a success exactly old+announced-withdrawn (delta) / exactly the announced set (reset) with serial = End of Data's; after a failure exactly the records before with the same next query, or none and a Reset Query; a success on a response the judge calls faulty is a violation; records of the other cache never change. evaluations = conversations; non-trivial = a failed response after >=1 payload PDU had been applied (undo path), or a completed reload over existing data, or a successful delta with announcements and withdrawals; distinct by hash of the script.",
+        "rule": "rapidcheck generates conversations for the simulator (engine/): a configuration (valid refresh/expire/retry, one of 4 interval modes, session id, serial base incl. values around 2^31 and 2^32-1, initial cache data, records of a second cache) and 0..14 steps, one per query the client completes. A step scripts: failing open() calls and time consumed in open(); how the query write behaves (whole / 1-3 byte partial writes / error / would-block / interrupted / partial-then-error); 0..2 data-version advances of the cache (toggles over a universe of 24 nested IPv4, 16 nested IPv6 records and 12 router keys, optional bulk families of 110..230 IPv4 /32, IPv6 /128 or router-key records for answers with more than 100 PDUs of a kind; payload PDUs optionally with a non-zero reserved octet), cache restarts; the response kind (correct / Cache Reset / Error Report with any code, version byte, text, encapsulated PDU, also mid-payload / no answer / one of 15 mutations of a correct response incl. a second mutation / version-0 answer / hostile-but-well-formed fields / raw bytes); recv chunking (whole, 1-byte, irregular, 7-byte); a transport fault inside the answer (error, hang-up, EINTR — the last one optionally with the rest of the answer still readable); an rtr_stop()+rtr_start() in the middle of the exchange (at the n-th transport call / table-lock release); and what happens when the client waits on an empty connection (timeout, EINTR also one second late, hang-up, transport error, Serial Notify, a stray PDU of six kinds while ESTABLISHED, stop+restart of the socket). After the last step the cache answers honestly. The real state machine (rtr_start -> rtr_fsm_start) runs on the mock transport with a simulated clock; an independent strict decoder + protocol model ('judge') decides what a correct client must conclude. Oracle C03: at every observation point (each open(), each completed query, stop, end) the cache's records in both tables must equal one of the model's alternatives — after a success exactly old+announced-withdrawn (delta) / exactly the announced set (reset) with serial = End of Data's; after a failure exactly the records before with the same next query, or none and a Reset Query; a success on a response the judge calls faulty is a violation; records of the other cache never change. evaluations = conversations; non-trivial = a failed response after >=1 payload PDU had been applied (undo path), or a completed reload over existing data, or a successful delta with announcements and withdrawals; distinct by hash of the script.",
         "assumptions": ['the mock transport obeys the transport contract (never 0 bytes, never more than asked, errors as tcp_transport returns them)', 'clock = lrtr_get_monotonic_time and sleep() replaced at link time (--wrap); one FSM thread does all the work, so a run is a deterministic function of its script', 'the judge (engine/judge.hpp) is a correct reading of RFC 8210 framing and of the property statements; where the statement leaves room the weaker reading is used (DESIGN.md §10)'],
         "floor": {"quick": 40, "thorough": 400},
         "technique": 'model-based conversation testing (rapidcheck + simulator): history invariant over observation points, judge-decided either-or',
@@ -168,7 +168,7 @@ CHECKS = {
     "C05": {
         "level": "exploration",
         "engine": "convsim + rapidcheck",
-        "rule": "rapidcheck generates conversations for the simulator (engine/): a configuration (valid refresh/expire/retry, one of 4 interval modes, session id, serial base incl. values around 2^31 and 2^32-1, initial cache data, records of a second cache) and 0..14 steps, one per query the client completes. A step scripts: failing open() calls and time consumed in open(); how the query write behaves (whole / 1-3 byte partial writes / error / would-block / interrupted / partial-then-error); 0..2 data-version advances of the cache (toggles over a universe of 24 nested IPv4, 16 nested IPv6 records and 12 router keys, optional 120/230 bulk records), cache restarts; the response kind (correct / Cache Reset / Error Report with any code, version byte, text, encapsulated PDU, also mid-payload / no answer / one of 15 mutations of a correct response incl. a second mutation / version-0 answer / hostile-but-well-formed fields / raw bytes); recv chunking (whole, 1-byte, irregular, 7-byte); and what happens when the client waits on an empty connection (timeout, EINTR, hang-up, transport error, Serial Notify, stop+restart of the socket). After the last step the cache answers honestly. The real state machine (rtr_start -> rtr_fsm_start) runs on the mock transport with a simulated clock; an independent strict decoder + protocol model ('judge') decides what a correct client must conclude. Oracle C05: every completed query must be the one the model predicts — Reset Query iff no session is established (initially, after Cache Reset, error code 2, expiry, stop/start, or the purge alternative), else Serial Query with exactly the session and serial of the last exchange completed by End of Data; a Cache Response / End of Data with a foreign session must not lead to success. non-trivial = >=3 queries incl. a Serial Query after a failed exchange, or a session-mismatch response, or a stop/start cycle; distinct by hash of the script.",
+        "rule": "rapidcheck generates conversations for the simulator (engine/): a configuration (valid refresh/expire/retry, one of 4 interval modes, session id, serial base incl. values around 2^31 and 2^32-1, initial cache data, records of a second cache) and 0..14 steps, one per query the client completes. A step scripts: failing open() calls and time consumed in open(); how the query write behaves (whole / 1-3 byte partial writes / error / would-block / interrupted / partial-then-error); 0..2 data-version advances of the cache (toggles over a universe of 24 nested IPv4, 16 nested IPv6 records and 12 router keys, optional bulk families of 110..230 IPv4 /32, IPv6 /128 or router-key records for answers with more than 100 PDUs of a kind; payload PDUs optionally with a non-zero reserved octet), cache restarts; the response kind (correct / Cache Reset / Error Report with any code, version byte, text, encapsulated PDU, also mid-payload / no answer / one of 15 mutations of a correct response incl. a second mutation / version-0 answer / hostile-but-well-formed fields / raw bytes); recv chunking (whole, 1-byte, irregular, 7-byte); a transport fault inside the answer (error, hang-up, EINTR — the last one optionally with the rest of the answer still readable); an rtr_stop()+rtr_start() in the middle of the exchange (at the n-th transport call / table-lock release); and what happens when the client waits on an empty connection (timeout, EINTR also one second late, hang-up, transport error, Serial Notify, a stray PDU of six kinds while ESTABLISHED, stop+restart of the socket). After the last step the cache answers honestly. The real state machine (rtr_start -> rtr_fsm_start) runs on the mock transport with a simulated clock; an independent strict decoder + protocol model ('judge') decides what a correct client must conclude. Oracle C05: every completed query must be the one the model predicts — Reset Query iff no session is established (initially, after Cache Reset, error code 2, expiry, stop/start, or the purge alternative), else Serial Query with exactly the session and serial of the last exchange completed by End of Data; a Cache Response / End of Data with a foreign session must not lead to success. non-trivial = >=3 queries incl. a Serial Query after a failed exchange, or a session-mismatch response, or a stop/start cycle; distinct by hash of the script.",
         "assumptions": ['the mock transport obeys the transport contract (never 0 bytes, never more than asked, errors as tcp_transport returns them)', 'clock = lrtr_get_monotonic_time and sleep() replaced at link time (--wrap); one FSM thread does all the work, so a run is a deterministic function of its script', 'the judge (engine/judge.hpp) is a correct reading of RFC 8210 framing and of the property statements; where the statement leaves room the weaker reading is used (DESIGN.md §10)'],
         "floor": {"quick": 40, "thorough": 400},
         "technique": 'model-based conversation testing (rapidcheck + simulator): every outbound query compared with the protocol model',
@@ -181,7 +181,7 @@ CHECKS = {
     "C07": {
         "level": "exploration",
         "engine": "convsim + rapidcheck",
-        "rule": "rapidcheck generates conversations for the simulator (engine/): a configuration (valid refresh/expire/retry, one of 4 interval modes, session id, serial base incl. values around 2^31 and 2^32-1, initial cache data, records of a second cache) and 0..14 steps, one per query the client completes. A step scripts: failing open() calls and time consumed in open(); how the query write behaves (whole / 1-3 byte partial writes / error / would-block / interrupted / partial-then-error); 0..2 data-version advances of the cache (toggles over a universe of 24 nested IPv4, 16 nested IPv6 records and 12 router keys, optional 120/230 bulk records), cache restarts; the response kind (correct / Cache Reset / Error Report with any code, version byte, text, encapsulated PDU, also mid-payload / no answer / one of 15 mutations of a correct response incl. a second mutation / version-0 answer / hostile-but-well-formed fields / raw bytes); recv chunking (whole, 1-byte, irregular, 7-byte); and what happens when the client waits on an empty connection (timeout, EINTR, hang-up, transport error, Serial Notify, stop+restart of the socket). After the last step the cache answers honestly. The real state machine (rtr_start -> rtr_fsm_start) runs on the mock transport with a simulated clock; an independent strict decoder + protocol model ('judge') decides what a correct client must conclude. Oracle C07: at every open() entry, if more than expire_interval (read from the socket) has passed on the simulated clock since the last success the model saw, no record of the socket may remain and the next query must be a Reset Query; after every rtr_stop (mid-conversation and final) no record of the socket remains; the other cache's records are intact. non-trivial = an open() later than expire after >=1 success, or a stop/start cycle; distinct by hash of the script.",
+        "rule": "rapidcheck generates conversations for the simulator (engine/): a configuration (valid refresh/expire/retry, one of 4 interval modes, session id, serial base incl. values around 2^31 and 2^32-1, initial cache data, records of a second cache) and 0..14 steps, one per query the client completes. A step scripts: failing open() calls and time consumed in open(); how the query write behaves (whole / 1-3 byte partial writes / error / would-block / interrupted / partial-then-error); 0..2 data-version advances of the cache (toggles over a universe of 24 nested IPv4, 16 nested IPv6 records and 12 router keys, optional bulk families of 110..230 IPv4 /32, IPv6 /128 or router-key records for answers with more than 100 PDUs of a kind; payload PDUs optionally with a non-zero reserved octet), cache restarts; the response kind (correct / Cache Reset / Error Report with any code, version byte, text, encapsulated PDU, also mid-payload / no answer / one of 15 mutations of a correct response incl. a second mutation / version-0 answer / hostile-but-well-formed fields / raw bytes); recv chunking (whole, 1-byte, irregular, 7-byte); a transport fault inside the answer (error, hang-up, EINTR — the last one optionally with the rest of the answer still readable); an rtr_stop()+rtr_start() in the middle of the exchange (at the n-th transport call / table-lock release); and what happens when the client waits on an empty connection (timeout, EINTR also one second late, hang-up, transport error, Serial Notify, a stray PDU of six kinds while ESTABLISHED, stop+restart of the socket). After the last step the cache answers honestly. The real state machine (rtr_start -> rtr_fsm_start) runs on the mock transport with a simulated clock; an independent strict decoder + protocol model ('judge') decides what a correct client must conclude. Oracle C07: at every open() entry, if more than expire_interval (read from the socket) has passed on the simulated clock since the last success the model saw, no record of the socket may remain and the next query must be a Reset Query; after every rtr_stop (while the state machine waits, in the middle of an exchange incl. the application of a payload, and the final one) no record of the socket remains (counted without the model, so also after hostile payload) and the state is CLOSED; the other cache's records are intact. non-trivial = an open() later than expire after >=1 success, or a stop/start cycle; distinct by hash of the script.",
         "assumptions": ['the mock transport obeys the transport contract (never 0 bytes, never more than asked, errors as tcp_transport returns them)', 'clock = lrtr_get_monotonic_time and sleep() replaced at link time (--wrap); one FSM thread does all the work, so a run is a deterministic function of its script', 'the judge (engine/judge.hpp) is a correct reading of RFC 8210 framing and of the property statements; where the statement leaves room the weaker reading is used (DESIGN.md §10)'],
         "floor": {"quick": 40, "thorough": 400},
         "technique": 'model-based conversation testing with an owned clock: expiry/stop invariants at every open() and stop',
@@ -194,7 +194,7 @@ CHECKS = {
     "C08": {
         "level": "exploration",
         "engine": "convsim + rapidcheck",
-        "rule": "rapidcheck generates conversations for the simulator (engine/): a configuration (valid refresh/expire/retry, one of 4 interval modes, session id, serial base incl. values around 2^31 and 2^32-1, initial cache data, records of a second cache) and 0..14 steps, one per query the client completes. A step scripts: failing open() calls and time consumed in open(); how the query write behaves (whole / 1-3 byte partial writes / error / would-block / interrupted / partial-then-error); 0..2 data-version advances of the cache (toggles over a universe of 24 nested IPv4, 16 nested IPv6 records and 12 router keys, optional 120/230 bulk records), cache restarts; the response kind (correct / Cache Reset / Error Report with any code, version byte, text, encapsulated PDU, also mid-payload / no answer / one of 15 mutations of a correct response incl. a second mutation / version-0 answer / hostile-but-well-formed fields / raw bytes); recv chunking (whole, 1-byte, irregular, 7-byte); and what happens when the client waits on an empty connection (timeout, EINTR, hang-up, transport error, Serial Notify, stop+restart of the socket). After the last step the cache answers honestly. The real state machine (rtr_start -> rtr_fsm_start) runs on the mock transport with a simulated clock; an independent strict decoder + protocol model ('judge') decides what a correct client must conclude. Oracle C08: once the script is used up the cache answers every query correctly (Cache Reset for a foreign session / unknown serial); the client must reach ESTABLISHED with records equal to the cache's data within expire+refresh+4*retry+600 s of simulated time, must never make 20000 transport calls without clock progress or input consumption, and must not complete 25 successful exchanges without converging. non-trivial = >=2 failed exchanges, >=1 success and convergence observed; distinct by hash of the script.",
+        "rule": "rapidcheck generates conversations for the simulator (engine/): a configuration (valid refresh/expire/retry, one of 4 interval modes, session id, serial base incl. values around 2^31 and 2^32-1, initial cache data, records of a second cache) and 0..14 steps, one per query the client completes. A step scripts: failing open() calls and time consumed in open(); how the query write behaves (whole / 1-3 byte partial writes / error / would-block / interrupted / partial-then-error); 0..2 data-version advances of the cache (toggles over a universe of 24 nested IPv4, 16 nested IPv6 records and 12 router keys, optional bulk families of 110..230 IPv4 /32, IPv6 /128 or router-key records for answers with more than 100 PDUs of a kind; payload PDUs optionally with a non-zero reserved octet), cache restarts; the response kind (correct / Cache Reset / Error Report with any code, version byte, text, encapsulated PDU, also mid-payload / no answer / one of 15 mutations of a correct response incl. a second mutation / version-0 answer / hostile-but-well-formed fields / raw bytes); recv chunking (whole, 1-byte, irregular, 7-byte); a transport fault inside the answer (error, hang-up, EINTR — the last one optionally with the rest of the answer still readable); an rtr_stop()+rtr_start() in the middle of the exchange (at the n-th transport call / table-lock release); and what happens when the client waits on an empty connection (timeout, EINTR also one second late, hang-up, transport error, Serial Notify, a stray PDU of six kinds while ESTABLISHED, stop+restart of the socket). After the last step the cache answers honestly. The real state machine (rtr_start -> rtr_fsm_start) runs on the mock transport with a simulated clock; an independent strict decoder + protocol model ('judge') decides what a correct client must conclude. Oracle C08: once the script is used up the cache answers every query correctly (Cache Reset for a foreign session / unknown serial); the client must reach ESTABLISHED with records equal to the cache's data within expire+refresh+4*retry+600 s of simulated time, must never make 20000 transport calls without clock progress or input consumption, and must not complete 25 successful exchanges without converging. non-trivial = >=2 failed exchanges, >=1 success and convergence observed; distinct by hash of the script.",
         "assumptions": ['the mock transport obeys the transport contract (never 0 bytes, never more than asked, errors as tcp_transport returns them)', 'clock = lrtr_get_monotonic_time and sleep() replaced at link time (--wrap); one FSM thread does all the work, so a run is a deterministic function of its script', 'the judge (engine/judge.hpp) is a correct reading of RFC 8210 framing and of the property statements; where the statement leaves room the weaker reading is used (DESIGN.md §10)'],
         "floor": {"quick": 40, "thorough": 400},
         "technique": 'fault-schedule generation (rapidcheck) + bounded-time convergence oracle under a simulated clock',
@@ -207,7 +207,7 @@ CHECKS = {
     "C13": {
         "level": "exploration",
         "engine": "convsim + rapidcheck",
-        "rule": "rapidcheck generates conversations for the simulator (engine/): a configuration (valid refresh/expire/retry, one of 4 interval modes, session id, serial base incl. values around 2^31 and 2^32-1, initial cache data, records of a second cache) and 0..14 steps, one per query the client completes. A step scripts: failing open() calls and time consumed in open(); how the query write behaves (whole / 1-3 byte partial writes / error / would-block / interrupted / partial-then-error); 0..2 data-version advances of the cache (toggles over a universe of 24 nested IPv4, 16 nested IPv6 records and 12 router keys, optional 120/230 bulk records), cache restarts; the response kind (correct / Cache Reset / Error Report with any code, version byte, text, encapsulated PDU, also mid-payload / no answer / one of 15 mutations of a correct response incl. a second mutation / version-0 answer / hostile-but-well-formed fields / raw bytes); recv chunking (whole, 1-byte, irregular, 7-byte); and what happens when the client waits on an empty connection (timeout, EINTR, hang-up, transport error, Serial Notify, stop+restart of the socket). After the last step the cache answers honestly. The real state machine (rtr_start -> rtr_fsm_start) runs on the mock transport with a simulated clock; an independent strict decoder + protocol model ('judge') decides what a correct client must conclude. Oracle C13: the model version starts at 1 and is lowered only by (a) a non-error first PDU of a connection with version 0, (b) an Unsupported-Version report with a lower supported version (then open() must follow with no clock progress), (c) a hang-up without any byte while no session exists (must lower) / other hang-ups without session (may lower). Every PDU the client sends must carry the model version; a success on a response with a wrong-version PDU or an End of Data in the other version's format is a violation. non-trivial = a conversation with a downgrade or a wrong-version PDU; distinct by hash of the script.",
+        "rule": "rapidcheck generates conversations for the simulator (engine/): a configuration (valid refresh/expire/retry, one of 4 interval modes, session id, serial base incl. values around 2^31 and 2^32-1, initial cache data, records of a second cache) and 0..14 steps, one per query the client completes. A step scripts: failing open() calls and time consumed in open(); how the query write behaves (whole / 1-3 byte partial writes / error / would-block / interrupted / partial-then-error); 0..2 data-version advances of the cache (toggles over a universe of 24 nested IPv4, 16 nested IPv6 records and 12 router keys, optional bulk families of 110..230 IPv4 /32, IPv6 /128 or router-key records for answers with more than 100 PDUs of a kind; payload PDUs optionally with a non-zero reserved octet), cache restarts; the response kind (correct / Cache Reset / Error Report with any code, version byte, text, encapsulated PDU, also mid-payload / no answer / one of 15 mutations of a correct response incl. a second mutation / version-0 answer / hostile-but-well-formed fields / raw bytes); recv chunking (whole, 1-byte, irregular, 7-byte); a transport fault inside the answer (error, hang-up, EINTR — the last one optionally with the rest of the answer still readable); an rtr_stop()+rtr_start() in the middle of the exchange (at the n-th transport call / table-lock release); and what happens when the client waits on an empty connection (timeout, EINTR also one second late, hang-up, transport error, Serial Notify, a stray PDU of six kinds while ESTABLISHED, stop+restart of the socket). After the last step the cache answers honestly. The real state machine (rtr_start -> rtr_fsm_start) runs on the mock transport with a simulated clock; an independent strict decoder + protocol model ('judge') decides what a correct client must conclude. Oracle C13: the model version starts at 1 and is lowered only by (a) a non-error first PDU of a connection with version 0, (b) an Unsupported-Version report with a lower supported version (then open() must follow with no clock progress), (c) a hang-up without any byte while no session exists (must lower) / other hang-ups without session before the client has accepted an answer PDU other than a Serial Notify (may lower; after that it must not). After (a) a complete valid answer on a fault-free transport must be accepted in the same exchange. A wrong-version PDU must be reported with code 8. Every PDU the client sends must carry the model version; a success on a response with a wrong-version PDU or an End of Data in the other version's format is a violation. non-trivial = a conversation with a downgrade or a wrong-version PDU; distinct by hash of the script.",
         "assumptions": ['the mock transport obeys the transport contract (never 0 bytes, never more than asked, errors as tcp_transport returns them)', 'clock = lrtr_get_monotonic_time and sleep() replaced at link time (--wrap); one FSM thread does all the work, so a run is a deterministic function of its script', 'the judge (engine/judge.hpp) is a correct reading of RFC 8210 framing and of the property statements; where the statement leaves room the weaker reading is used (DESIGN.md §10)'],
         "floor": {"quick": 40, "thorough": 400},
         "technique": 'model-based conversation testing: version byte of every sent PDU vs the model, downgrade triggers generated',
@@ -220,7 +220,7 @@ CHECKS = {
     "C14": {
         "level": "exploration",
         "engine": "convsim + rapidcheck",
-        "rule": "rapidcheck generates conversations for the simulator (engine/): a configuration (valid refresh/expire/retry, one of 4 interval modes, session id, serial base incl. values around 2^31 and 2^32-1, initial cache data, records of a second cache) and 0..14 steps, one per query the client completes. A step scripts: failing open() calls and time consumed in open(); how the query write behaves (whole / 1-3 byte partial writes / error / would-block / interrupted / partial-then-error); 0..2 data-version advances of the cache (toggles over a universe of 24 nested IPv4, 16 nested IPv6 records and 12 router keys, optional 120/230 bulk records), cache restarts; the response kind (correct / Cache Reset / Error Report with any code, version byte, text, encapsulated PDU, also mid-payload / no answer / one of 15 mutations of a correct response incl. a second mutation / version-0 answer / hostile-but-well-formed fields / raw bytes); recv chunking (whole, 1-byte, irregular, 7-byte); and what happens when the client waits on an empty connection (timeout, EINTR, hang-up, transport error, Serial Notify, stop+restart of the socket). After the last step the cache answers honestly. The real state machine (rtr_start -> rtr_fsm_start) runs on the mock transport with a simulated clock; an independent strict decoder + protocol model ('judge') decides what a correct client must conclude. Oracle C14: the bytes handed to send() (under whole and 1-3 byte partial writes) must parse into complete PDUs of type 1/2/10 with the model version, length field = bytes <= own maximum; for each Error Report 16+enc+text = length, text printable, the encapsulated bytes are a byte-exact substring of what the cache sent on this connection and not an Error Report; for a single judge-tagged violation after which the cache fell silent: exactly one report, with the class's code (too short/long/size/flags/session/unexpected 0, version 8, duplicate 7, unknown withdrawal 6, unknown type 0 or 5) and an encapsulated PDU that is a prefix of the offender; no report on a valid accepted response. non-trivial = conversation in which the client sent >=1 Error Report; distinct by hash of the script.",
+        "rule": "rapidcheck generates conversations for the simulator (engine/): a configuration (valid refresh/expire/retry, one of 4 interval modes, session id, serial base incl. values around 2^31 and 2^32-1, initial cache data, records of a second cache) and 0..14 steps, one per query the client completes. A step scripts: failing open() calls and time consumed in open(); how the query write behaves (whole / 1-3 byte partial writes / error / would-block / interrupted / partial-then-error); 0..2 data-version advances of the cache (toggles over a universe of 24 nested IPv4, 16 nested IPv6 records and 12 router keys, optional bulk families of 110..230 IPv4 /32, IPv6 /128 or router-key records for answers with more than 100 PDUs of a kind; payload PDUs optionally with a non-zero reserved octet), cache restarts; the response kind (correct / Cache Reset / Error Report with any code, version byte, text, encapsulated PDU, also mid-payload / no answer / one of 15 mutations of a correct response incl. a second mutation / version-0 answer / hostile-but-well-formed fields / raw bytes); recv chunking (whole, 1-byte, irregular, 7-byte); a transport fault inside the answer (error, hang-up, EINTR — the last one optionally with the rest of the answer still readable); an rtr_stop()+rtr_start() in the middle of the exchange (at the n-th transport call / table-lock release); and what happens when the client waits on an empty connection (timeout, EINTR also one second late, hang-up, transport error, Serial Notify, a stray PDU of six kinds while ESTABLISHED, stop+restart of the socket). After the last step the cache answers honestly. The real state machine (rtr_start -> rtr_fsm_start) runs on the mock transport with a simulated clock; an independent strict decoder + protocol model ('judge') decides what a correct client must conclude. Oracle C14: the bytes handed to send() (under whole and 1-3 byte partial writes) must parse into complete PDUs of type 1/2/10 with the model version, length field = bytes <= own maximum; for each Error Report 16+enc+text = length, text printable, the encapsulated bytes are a byte-exact substring of what the cache sent on this connection and not an Error Report; for a single judge-tagged violation after which the cache fell silent: exactly one report, with the class's code (too short/long/size/flags/session/unexpected 0, version 8, duplicate 7, unknown withdrawal 6, unknown type 0 or 5) and a non-empty encapsulated PDU that is a byte-exact prefix of the offender; no report on a valid accepted response. non-trivial = conversation in which the client sent >=1 Error Report; distinct by hash of the script.",
         "assumptions": ['the mock transport obeys the transport contract (never 0 bytes, never more than asked, errors as tcp_transport returns them)', 'clock = lrtr_get_monotonic_time and sleep() replaced at link time (--wrap); one FSM thread does all the work, so a run is a deterministic function of its script', 'the judge (engine/judge.hpp) is a correct reading of RFC 8210 framing and of the property statements; where the statement leaves room the weaker reading is used (DESIGN.md §10)'],
         "floor": {"quick": 40, "thorough": 400},
         "technique": 'model-based conversation testing: outbound byte log parsed by an independent decoder; tagged-violation completeness',
@@ -233,7 +233,7 @@ CHECKS = {
     "C17": {
         "level": "exploration",
         "engine": "convsim + rapidcheck",
-        "rule": "rapidcheck generates conversations for the simulator (engine/): a configuration (valid refresh/expire/retry, one of 4 interval modes, session id, serial base incl. values around 2^31 and 2^32-1, initial cache data, records of a second cache) and 0..14 steps, one per query the client completes. A step scripts: failing open() calls and time consumed in open(); how the query write behaves (whole / 1-3 byte partial writes / error / would-block / interrupted / partial-then-error); 0..2 data-version advances of the cache (toggles over a universe of 24 nested IPv4, 16 nested IPv6 records and 12 router keys, optional 120/230 bulk records), cache restarts; the response kind (correct / Cache Reset / Error Report with any code, version byte, text, encapsulated PDU, also mid-payload / no answer / one of 15 mutations of a correct response incl. a second mutation / version-0 answer / hostile-but-well-formed fields / raw bytes); recv chunking (whole, 1-byte, irregular, 7-byte); and what happens when the client waits on an empty connection (timeout, EINTR, hang-up, transport error, Serial Notify, stop+restart of the socket). After the last step the cache answers honestly. The real state machine (rtr_start -> rtr_fsm_start) runs on the mock transport with a simulated clock; an independent strict decoder + protocol model ('judge') decides what a correct client must conclude. Oracle C17: after every success the socket's (refresh, retry, expire) must equal the value the interval mode prescribes for what End of Data carried (values from a table of all range boundaries +-1, 0, 2^32-1); after a failure that read a well-formed End of Data either the previous or the prescribed values; version-0 End of Data changes nothing; in ESTABLISHED the first recv timeout must equal max(0, last_success+refresh-now); after a timeout or a Serial Notify the next transport call must be the send of a Serial Query. rtr_init's range check is decided by the intervals driver stage. non-trivial = End of Data with a field outside or on the boundary of its range, or a Serial Notify / refresh expiry in ESTABLISHED; distinct by hash of the script.",
+        "rule": "rapidcheck generates conversations for the simulator (engine/): a configuration (valid refresh/expire/retry, one of 4 interval modes, session id, serial base incl. values around 2^31 and 2^32-1, initial cache data, records of a second cache) and 0..14 steps, one per query the client completes. A step scripts: failing open() calls and time consumed in open(); how the query write behaves (whole / 1-3 byte partial writes / error / would-block / interrupted / partial-then-error); 0..2 data-version advances of the cache (toggles over a universe of 24 nested IPv4, 16 nested IPv6 records and 12 router keys, optional bulk families of 110..230 IPv4 /32, IPv6 /128 or router-key records for answers with more than 100 PDUs of a kind; payload PDUs optionally with a non-zero reserved octet), cache restarts; the response kind (correct / Cache Reset / Error Report with any code, version byte, text, encapsulated PDU, also mid-payload / no answer / one of 15 mutations of a correct response incl. a second mutation / version-0 answer / hostile-but-well-formed fields / raw bytes); recv chunking (whole, 1-byte, irregular, 7-byte); a transport fault inside the answer (error, hang-up, EINTR — the last one optionally with the rest of the answer still readable); an rtr_stop()+rtr_start() in the middle of the exchange (at the n-th transport call / table-lock release); and what happens when the client waits on an empty connection (timeout, EINTR also one second late, hang-up, transport error, Serial Notify, a stray PDU of six kinds while ESTABLISHED, stop+restart of the socket). After the last step the cache answers honestly. The real state machine (rtr_start -> rtr_fsm_start) runs on the mock transport with a simulated clock; an independent strict decoder + protocol model ('judge') decides what a correct client must conclude. Oracle C17: after every success the socket's (refresh, retry, expire) must equal the value the interval mode prescribes for what End of Data carried (values from a table of all range boundaries +-1, 0, 2^32-1); after a failure that read a well-formed End of Data either the previous or the prescribed values; version-0 End of Data changes nothing; in ESTABLISHED the first recv timeout must equal max(0, last_success+refresh-now); after a timeout or a Serial Notify the next transport call must be the send of a Serial Query. rtr_init's range check is decided by the intervals driver stage. non-trivial = End of Data with a field outside or on the boundary of its range, or a Serial Notify / refresh expiry in ESTABLISHED; distinct by hash of the script.",
         "assumptions": ['the mock transport obeys the transport contract (never 0 bytes, never more than asked, errors as tcp_transport returns them)', 'clock = lrtr_get_monotonic_time and sleep() replaced at link time (--wrap); one FSM thread does all the work, so a run is a deterministic function of its script', 'the judge (engine/judge.hpp) is a correct reading of RFC 8210 framing and of the property statements; where the statement leaves room the weaker reading is used (DESIGN.md §10)'],
         "floor": {"quick": 40, "thorough": 400},
         "technique": 'model-based conversation testing + boundary-value generation for End of Data intervals; exact timeout oracle under an owned clock',
@@ -247,9 +247,9 @@ CHECKS = {
         "level": "exploration",
         "rule": "rapidcheck generates BGPsec updates: 1..8 hops (thorough: up to 40) with arbitrary pCount/flags, AS numbers from a pool incl. 0 and 2^32-1, P-256 keys from a pool of 6 "
                 "(SKIs shared between keys), IPv4 NLRI of every length 0..32 and IPv6 0..128 with random bits, per-hop key-table shapes (right key under the right AS; plus decoys and garbage under the same SKI; "
-                "right key only under another AS; garbage only; no key; right key under two AS numbers), optionally one single-bit corruption of a signed field (target AS, pCount, flags, AS, AFI, SAFI, NLRI length/bits, SKI, signature), "
-                "a segment-count mismatch, an unsupported suite or AFI. Every hop is signed by the harness over the RFC 8205 section 4.2 octets built from the harness's own path representation (model/rfc8205.hpp, EVP_DigestSign). "
-                "Oracle: VALID iff for every hop some table key with the hop's SKI AND AS verifies (EVP_DigestVerify); the four specific codes where the property names them. "
+                "right key only under another AS; garbage only; no key; right key under two AS numbers), optionally one single-bit corruption of a signed field (target AS, pCount, flags, AS, AFI, SAFI, NLRI length/bits, SKI, signature, algorithm suite), "
+                "a segment-count mismatch in either direction (one Signature Segment or one Secure_Path Segment too few), an unsupported suite or AFI. Every hop is signed by the harness over the RFC 8205 section 4.2 octets built from the harness's own path representation (model/rfc8205.hpp, EVP_DigestSign). "
+                "Oracle: VALID iff for every hop some table key with the hop's SKI AND AS verifies (EVP_DigestVerify); the four specific codes where the property names them; rtr_mgr_bgpsec_validate_as_path must give the same answer as rtr_bgpsec_validate_as_path. "
                 "non-trivial = >=3 hops, or IPv6, or NLRI length not a multiple of 8, or >=2 keys under one SKI; distinct by hash of the case.",
         "assumptions": ["OpenSSL's ECDSA/SHA-256 primitive is shared with the library (only the primitive: digest layout, key selection and hop iteration are independent)",
                         "keys and signatures are regenerated on replay (ECDSA is randomised); the verdict is a function of the case structure"],
@@ -263,8 +263,8 @@ CHECKS = {
     },
     "C12": {
         "level": "exploration",
-        "rule": "same generators as C11, but each hop is signed by rtr_bgpsec_generate_signature with the hop's DER private key (originations and forwardings, hop by hop); optionally the last hop gets a damaged key (truncated / one bit flipped), "
-                "a wrong segment count, an unsupported suite or AFI. Oracle: the returned segment is one well-formed DER ECDSA signature of <= 72 bytes, it verifies over the independently built RFC 8205 octets under the matching public key (EVP_DigestVerify), "
+        "rule": "same generators as C11, but each hop is signed by rtr_bgpsec_generate_signature (odd hops: rtr_mgr_bgpsec_generate_signature) with the hop's DER private key (originations and forwardings, hop by hop); optionally the last hop gets a damaged key (truncated / one bit flipped), "
+                "a wrong segment count (one Secure_Path segment too many, or the signer's own segment missing), an unsupported suite or AFI. Oracle: the returned segment is one well-formed DER ECDSA signature of <= 72 bytes, it verifies over the independently built RFC 8205 octets under the matching public key (EVP_DigestVerify), "
                 "and the path built from all generated signatures validates VALID; error cases give LOAD_PRIV_KEY_ERROR / UNSUPPORTED_ALGORITHM_SUITE / UNSUPPORTED_AFI / WRONG_SEGMENT_COUNT. non-trivial as C11.",
         "assumptions": ["as C11", "a bit flip that leaves a key OpenSSL still loads and validates is not an 'unloadable key'"],
         "floor": {"quick": 300, "thorough": 3000},
@@ -282,7 +282,7 @@ CHECKS = {
                 "rtr_mgr_add_group (used and unused preferences), rtr_mgr_remove_group (existing, unknown, last), rtr_mgr_stop. rtr_start/rtr_stop are link-time mocks that record the call and reproduce the real ones' visible effects; "
                 "events are injected with the real rtr_change_socket_state so the real rtr_mgr_cb runs. Invariants after every operation: ascending order of for_each_group / get_first_group; a group becomes ESTABLISHED only if every socket has "
                 "last_update != 0; then every less preferred group is CLOSED, was reported CLOSED and has no running socket; stops caused by a socket of group g only hit groups less preferred than g; when a group enters ERROR with no group ESTABLISHED "
-                "the most preferred closed group and only that one is started. non-trivial = history in which a failover closed a less preferred active group or an ERROR triggered a start; distinct by hash of the case.",
+                "the most preferred closed group - every one of its sockets - and only that group is started. non-trivial = history in which a failover closed a less preferred active group or an ERROR triggered a start; distinct by hash of the case.",
         "assumptions": ["the mocks of rtr_start/rtr_stop reproduce state, thread_id, last_update and the SHUTDOWN callback of the real functions (rtr.c)",
                         "socket events follow the successor relation of rtr_fsm_start; sockets without a running thread produce no events"],
         "floor": {"quick": 300, "thorough": 3000},
@@ -319,7 +319,7 @@ CHECKS = {
         "rule": "stage tables: rapidcheck generates histories (<= 24 operations) of prefix-table add/remove/remove-by-source/validate-with-reasons and router-key add/remove/remove-by-source/get_all/search_by_ski/bulk add of 28..44 keys "
                 "(crossing the hash table's grow steps)/bulk delete/the reload sequence (copy_except_socket + swap). A counting allocator installed with lrtr_set_alloc_functions keeps a ledger of live blocks. Run 0 counts the N allocations and requires "
                 "that after the tables are freed the ledger is empty and no unknown block was passed to free. Then for EVERY k in 1..N the history is re-run (fresh tables, fresh model) with allocation k returning NULL once: the run must not crash (ASan/UBSan, asserts on); the call during which the failure "
-                "happened must either report an error and leave the table equal to the model without that call, or succeed with its full effect; every later call must agree with the model. evaluations = histories + injected failures; "
+                "happened must either report an error and leave the table equal to the model without that call, or succeed with its full effect; every later call must agree with the model, and no block unknown to the allocator (released twice) may reach its free()/realloc(). evaluations = histories + injected failures; "
                 "non-trivial = (history, k) pairs in which allocation k is not the first allocation of its operation (the failure hits a half-done operation); distinct by (history hash, index).",
         "assumptions": ["std::set models of both tables", "exhaustive over k for each generated history; histories are sampled"],
         "floor": {"quick": 30, "thorough": 300},
@@ -334,9 +334,9 @@ CHECKS = {
     "C06": {
         "level": "exploration",
         "engine": "convsim + rapidcheck",
-        "rule": CONV_GEN + "Oracle C06 (reader battery): whenever a full reload runs over existing data (Reset Query while the socket holds records), a battery of 80 route validations and 15 router-key lookups covering every record of the universe "
+        "rule": CONV_GEN + "Oracle C06 (reader battery): whenever a full reload runs over existing data (from the moment a Cache Reset is delivered to a client that holds unexpired data, or a Reset Query is sent while the socket holds records, until the reload has succeeded or failed), a battery of 80 route validations and 15 router-key lookups covering every record of the universe "
                 "is evaluated in place inside every transport call, inside every update callback issued without a table lock, and at every point where the synchronising thread has just released a lock of a live table (rwlock calls wrapped) — i.e. at every table state a "
-                "single-call reader can observe. Per table, the sequence of distinct answers between the Reset Query and the end of the exchange must have at most two elements (complete old set, then complete final set): a third state (empty, half loaded, new-then-old) is a violation. "
+                "single-call reader can observe. Per table, the sequence of distinct answers inside that window must have at most two elements (complete old set, then complete final set): a third state (empty, half loaded, new-then-old) is a violation. "
                 "non-trivial = a conversation in which a reload replaced a table's visible contents in exactly one step; distinct by hash of the script.",
         "assumptions": CONV_A + ["readers hold the read lock for a whole call, so the states observable by a reader are those that exist when the synchronising thread holds no write lock (that all mutations happen under the lock is C16's TSan stage)",
                                   "cross-table order (prefix table vs router-key table) is not constrained: the two swaps are separate critical sections"],
@@ -388,7 +388,7 @@ CHECKS["C09"]["engine"] = "rapidcheck + convsim"
 CHECKS["C10"]["stages"].append(_conv_stage((300, 100), (10000, 100)))
 CHECKS["C10"]["engine"] = "rapidcheck + convsim"
 CHECKS["C10"]["rule"] += (" Stage conv: in generated conversations (see C03) the router-key callback log must equal the router-key table at every observation point "
-                          "(after rollbacks, reload diffs, expiry purges, stops).")
+                          "(after rollbacks, reload diffs - exactly the net difference -, expiry purges, stops).")
 # C14: no byte sent stems from uninitialised memory — determinism under two dirtying patterns
 CHECKS["C14"]["stages"].append(_conv_stage((200, 100), (8000, 100), ["--mode", "dirty"], procs_q=4))
 CHECKS["C14"]["rule"] += (" Stage dirty: every conversation is run twice, with the stack below every transport call and every heap block of the library pre-filled with 0x00 resp. 0xFF; "
@@ -403,7 +403,7 @@ CHECKS["C18"]["stages"].append(_conv_stage((4, 40), (40, 80), ["--mode", "alloc"
 CHECKS["C18"]["stages"][-1]["quick"]["args"] = ["--maxk", "600"]
 CHECKS["C18"]["engine"] = "rapidcheck + per-fault re-execution + convsim"
 CHECKS["C18"]["rule"] += (" Stage conv: for generated conversations (see C03) run 0 counts the allocations the library makes while synchronising (temporary PDU stores incl. >100 PDU payloads, shadow tables, hash-table growth, undo paths); "
-                          "a conversation that ends converged must leave the ledger empty; then every allocation index (every k for N <= 1500, else 1500 evenly spaced) is failed once: no crash, and all conversation oracles (either-or of C03, callbacks, convergence) must still hold.")
+                          "a conversation that ends converged must leave the ledger empty; then every allocation index (every k up to the stage's limit - 600 quick, 1500 thorough - else that many evenly spaced) is failed once: no crash, and all conversation oracles (either-or of C03, callbacks, convergence) must still hold.")
 
 # thorough tier only: coverage-guided exploration (libFuzzer over the byte encoding of scripts) with the property's own oracles in the target
 for _p in ("C03", "C05", "C07", "C08", "C13", "C14", "C17"):
